@@ -300,6 +300,13 @@ func isoRun(c Val) Val {
 		join := a.join()
 		gor := waitFor(func() bool { return countConverters() == want }, 300*time.Millisecond)
 		out = append(out, L(Bo(panicked), Bo(other), Bo(self), Bo(join), Bo(gor)))
+		if panicked || !other || !self || !join || !gor {
+			// the process is damaged: everything after it would only repeat the time-outs
+			for len(out) < len(c.At(1).List()) {
+				out = append(out, L(I(2), I(0), I(0), I(0), I(0)))
+			}
+			break
+		}
 	}
 	return L(out...)
 }
